@@ -15,7 +15,45 @@ type modelFn func(e *Exec, fr *Frame, st *State, args []Val, cc *ssa.CallCommon,
 
 const maxInlineDepth = 6
 
+// usedOnlyByAssume: the value of this call instruction only flows into assume(...) calls.
+func usedOnlyByAssume(in ssa.Instruction) bool {
+	v, ok := in.(ssa.Value)
+	if !ok || v.Referrers() == nil || len(*v.Referrers()) == 0 {
+		return false
+	}
+	for _, r := range *v.Referrers() {
+		c, ok := r.(*ssa.Call)
+		if !ok {
+			// naive form: the value may first be combined by && (phi / binop) - be conservative
+			return false
+		}
+		f := c.Call.StaticCallee()
+		if f == nil || f.Name() != "assume" {
+			return false
+		}
+	}
+	return true
+}
+
 func (e *Exec) call(fr *Frame, st *State, cc *ssa.CallCommon, instr ssa.Instruction, pos token.Pos) Val {
+	e.curCall = instr
+	if fr.fc != nil && len(fr.fc.AtCalls) > 0 {
+		name := ""
+		if cc.IsInvoke() {
+			name = cc.Method.Name()
+		} else if f := cc.StaticCallee(); f != nil {
+			name = f.Name()
+		}
+		for _, ac := range fr.fc.AtCalls {
+			if ac.Callee != name {
+				continue
+			}
+			env := e.specEnvAt(fr, st)
+			f := e.specBool(env, ac.Clause)
+			key := "atcall." + ac.Callee + "." + ac.Clause.Label
+			e.sc.oblig(st.reach, f, fmt.Sprintf("%s#%s", e.unit, key)+e.siteSuffix(key), "pre", fmt.Sprintf("required at every call of %s: %s", ac.Callee, ac.Clause.Text), e.pos(pos))
+		}
+	}
 	var args []Val
 	if cc.IsInvoke() {
 		recv := e.val(fr, st, cc.Value)
@@ -115,6 +153,9 @@ func (e *Exec) callKey(fr *Frame, st *State, key string, fn *ssa.Function, bind 
 					}
 				}
 				env := &SpecEnv{e: e, fr: fr, st: st, old: fr.entry, vars: map[string]Val{}, oldVars: map[string]Val{}, bound: nb, pkg: g.Pkg}
+				savedDual := e.dual
+				e.dual = usedOnlyByAssume(e.curCall)
+				defer func() { e.dual = savedDual }()
 				r := e.sx(env, g.Expr)
 				return Val{T: e.mat(env, r), Typ: sig.Results().At(0).Type()}
 			}
@@ -405,7 +446,7 @@ func (e *Exec) applyContract(fr *Frame, st *State, fc *FuncContract, args []Val,
 	}
 	env2.results = resList
 	for _, c := range fc.Ensures {
-		e.sc.assume(st.reach, e.specBool(env2, c))
+		e.sc.assume(st.reach, e.specBoolA(env2, c))
 	}
 	e.boxCopyOut(st, args)
 	return res
@@ -596,6 +637,10 @@ func (e *Exec) applyModifies(env *SpecEnv, fc *FuncContract, st *State) {
 		if et, ok := e.heapElemType[t.heap]; ok {
 			e.sc.assume(st.reach, e.sc.rangeFact(n, et))
 			e.sc.assume(st.reach, e.allocFact(st, n, et))
+		}
+		if t.heap == "E_Int" {
+			q := e.sc.freshName("q.b")
+			e.sc.assume(st.reach, fmt.Sprintf("(forall ((%s Int)) (! (and (<= 0 (select %s %s)) (<= (select %s %s) 255)) :pattern ((select %s %s))))", q, n, q, n, q, n, q))
 		}
 		if t.lo != "" {
 			// only [lo,hi) of the array changes
